@@ -10,7 +10,7 @@ from . import synclib as L
 PROPERTY = "C20"
 DRIVER = "TraitsVerif/Driver/Sync.lean"
 PROPS_MODULES = ["TraitsVerif.Props.C20"]
-TRANSLATORS = ["syncprog"]
+TRANSLATORS = ["syncprog", "synclink"]
 RULE = ("seeded two-sided histories of 1-12 commands on 2-5 real HasTraits objects with scalar traits x, y and "
         "List traits l, m (and, in a quarter of the cases, classes of seven other shapes: List traits under different "
         "names with partial overlaps - a name that is a List trait in one class, a scalar trait in another, absent in a "
@@ -109,8 +109,9 @@ def corpus():
         # mutation must reach every side, also after a plain list was assigned from the Any side (seeded C20-m10)
         "#sy|x=int:l=*int,x=int:l=*int,x=int:z=any,x=int:z=any|li 0 l 1 l 1;li 0 l 2 z 1;li 0 l 3 z 0;mu 0 l in 0 7;"
         "as 0 l [1,2,3];mu 1 l ap 4;as 2 z [5,6];mu 0 l ap 7;mu 1 l ds N N 2;mu 0 l so;un 0 l 2 z 1;mu 0 l ap 9",
-        # known finding F98: two Any partners of one List trait hold ONE list object that is no longer the hub's
-        # (the mutual link replaced the hub's list): an in-place mutation is applied to it once per partner
+        # regression (F104, repaired by 78fd598): two Any partners of one List trait hold ONE list object that is no
+        # longer the hub's (the mutual link replaced the hub's list): an in-place mutation was applied to it once
+        # per partner
         "#sy|x=int:l=*int,x=int:l=*int,x=int:z=any,x=int:z=any|li 0 l 2 z 0;li 0 l 3 z 1;li 0 l 1 l 1;mu 0 l in 0 4",
         # stale items handler after the partner died: later links still propagate
         "sy|int:int:int:int,int:int:int:int,int:int:int:int,int:int:int:int|li 0 l 1 l 0;ki 1;li 0 l 2 x 0;li 0 l 3 l 0;mu 0 l ap 1",
@@ -699,7 +700,7 @@ def _run(specs, cmds, objs, recs, swallowed, guard, falsy=""):
                     accepts = False
                 vb0, vb1 = val(before, b), val(after, b)
                 # a list object shared by several partners (two Any partners holding one object that is not the
-                # mutated list itself) receives the delta once per holder (known finding F98)
+                # mutated list itself) used to receive the delta once per holder (F104, repaired by 78fd598)
                 shared = [hs for hs in idents.values() if b in hs and p not in hs
                           and any(h != b and (p, h) in D for h in hs)]
                 if (has_list_partner and accepts and shared and isinstance(vb0, list) and vb0 == val(before, a)
